@@ -24,6 +24,15 @@
     An [Info] is modelled by its [time] field (microseconds, [Z]); grid/units/mask compatibility
     is the subject of C07.  Payloads are tokens ([nat]).
 
+    Links: an input may sit behind pass-through adapters (Scale, chains, one instance shared by several inputs)
+    and behind time delay adapters (DelayFixed / DelayToPull).  All of them forward pings, info exchanges and
+    data requests to the output, so the end points counted by [nconn] are the inputs.  A time delay adapter
+    clamps the request of the connect phase to the PRODUCER's info time (TimeDelayAdapter.get_info:
+    initial_time = delivered info time), which is one of the published times and carries the same payload as the
+    publication for the composition start; the model therefore serves every initial pull from the first entry.
+    (Output._clear_data drops the start entry once every end point requested the later time; the harness
+    accounts for that, see c06.py [_evicted].)
+
     Domain restrictions (generator-enforced, documented in harness/props/c06.py):
       - every info handed to a non-static slot carries a time, transfer-rule lists set the time;
       - info times are not earlier than the composition start (otherwise the initial pull
